@@ -381,6 +381,8 @@ J gen_world(uint64_t seed, const J &opts)
 		bool bystander = (ncaches == 2 && ci == 1 && focus != "C15" && g.chance(700));
 		int nx = bystander ? (int)g.range(0, 3) : (int)g.range(2, maxx);
 		unsigned p_fault = bystander ? 0 : (focus == "C17" ? 150 : focus == "C08" ? 600 : 380);
+		if (opts.geti("clean", 0))
+			p_fault = 0; // base conversations for the systematic single-fault sweep
 		J script = J::arr();
 		for (int xi = 0; xi < nx; xi++) {
 			J ex = J::obj();
